@@ -102,3 +102,169 @@ def send_disconnected(h):
         h.oblige("the entry carries this very header and message", And(h.attr(e, "header") is hdr, h.attr(e, "message") is msg))
         h.oblige("retries_remaining = policy.max_retries", h.attr(e, "retries_remaining") == mr)
         h.oblige("expiry = now + policy.max_lifetime", h.attr(e, "expiry") == now + lt)
+
+
+# ------------------------------------------------------------------------------------------------
+# The unbounded route: queue of *arbitrary* length as an SMT sequence of entry ids, the real purge
+# loop verified with a loop contract (discharged by cvc5; z3's sequence solver does not decide it).
+
+import ast as _ast  # noqa: E402
+
+import z3 as _z3  # noqa: E402
+
+from pyvc import sym as _sym  # noqa: E402
+from pyvc.sym import SInt as _SInt, SReal as _SReal  # noqa: E402
+from pyvc.values import Builtin as _Builtin, Opaque as _Opaque, Unsupported as _Unsupported, Instance as _Instance  # noqa: E402
+from pyvc.interp import PathEnd as _PathEnd  # noqa: E402
+
+_SEQ = _z3.SeqSort(_z3.IntSort())
+_EXPIRY = _z3.Function("expiry_of", _z3.IntSort(), _z3.RealSort())
+_PURGE = _z3.Function("purge", _SEQ, _SEQ)
+
+
+def _purge_axiom(now_t):
+    """purge(s): the entries of s whose expiry lies in the future, in order (recursive definition)."""
+    s = _z3.Const("s", _SEQ)
+    head = s[0]
+    keep = _z3.If(now_t < _EXPIRY(head), _z3.Unit(head), _z3.Empty(_SEQ))
+    body = _z3.If(_z3.Length(s) == 0, _PURGE(s) == _z3.Empty(_SEQ),
+                  _PURGE(s) == _z3.Concat(keep, _PURGE(_z3.SubSeq(s, 1, _z3.Length(s) - 1))))
+    return _z3.ForAll([s], body, patterns=[_PURGE(s)])
+
+
+class _EntryRef:
+    """An element of the abstract queue, identified by its id term."""
+
+    def __init__(self, idt):
+        self.idt = idt
+
+    def py_getattr(self, it, name):
+        if name == "expiry":
+            return _SReal(_EXPIRY(self.idt))
+        if name in ("header", "message", "retries_remaining"):
+            return _Opaque(name + "-of-queued-entry")
+        raise it.exc("AttributeError", name)
+
+
+class SeqDeque:
+    """collections.deque of queue entries of arbitrary length: an SMT sequence of entry ids."""
+
+    def __init__(self, it, t):
+        self.it = it
+        self.t = t
+        self.new_ids = {}
+
+    def py_len(self, it):
+        return _sym.mkint(_z3.Length(self.t))
+
+    def py_truth(self, it):
+        return _sym.mkbool(_z3.Length(self.t) > 0)
+
+    def py_getitem(self, it, i):
+        n = self.py_len(it)
+        if it.path.branch(_sym.Or(i < 0, i >= n)):
+            raise _Unsupported("negative / out-of-range index into the abstract queue")
+        return _EntryRef(self.t[_sym.int_t(i)])
+
+    def py_delitem(self, it, i):
+        it_ = _sym.int_t(i)
+        n = _z3.Length(self.t)
+        self.t = _z3.Concat(_z3.SubSeq(self.t, 0, it_), _z3.SubSeq(self.t, it_ + 1, n - it_ - 1))
+
+    def id_of(self, it, entry):
+        from pyvc.loops import HavocValue
+        if isinstance(entry, _EntryRef):
+            return entry.idt
+        if isinstance(entry, HavocValue):
+            return _z3.Int(_sym.fresh_name("arbitrary_entry_id"))
+        if id(entry) not in self.new_ids:
+            idt = _z3.Int(_sym.fresh_name("entry_id"))
+            it.path.assume(_sym.mkbool(_EXPIRY(idt) == _sym.real_t(entry.attrs["expiry"])))
+            self.new_ids[id(entry)] = idt
+        return self.new_ids[id(entry)]
+
+    def py_getattr(self, it, name):
+        if name == "append":
+            def append(x):
+                self.t = _z3.Concat(self.t, _z3.Unit(self.id_of(it, x)))
+            return _Builtin("deque.append", append)
+        if name == "appendleft":
+            def appendleft(x):
+                self.t = _z3.Concat(_z3.Unit(self.id_of(it, x)), self.t)
+            return _Builtin("deque.appendleft", appendleft)
+        raise it.exc("AttributeError", name)
+
+
+def _seq_eq(a, b):
+    return _sym.mkbool(a == b)
+
+
+@oset("socket._enqueue_message.any-length", ["C16", "C01", "C02"], [ENQ], timeout_ms=4000,
+      assumptions=_ENQ_ASSUME + ["queue entries are identified by ids; deque indexing / del / append as sequence operations",
+                                 "`for i in reversed(range(n))` visits n-1, ..., 0 (Python semantics of the loop header)"])
+def enqueue_unbounded(h):
+    """For a queue of ANY length:  queue' = purge(queue) ++ [entry]  or QueueOverflowError with queue' = purge(queue)
+    when purge(queue) already holds ten entries.  Loop invariant of the real purge loop (descending index i):
+        queue == old[0..i] ++ purge(old[i+1..])."""
+    if not h.symbolic:
+        return _enqueue(h, h.choice("queue_len", list(range(0, 12))))
+    if getattr(h, "concrete", False):
+        from pyvc.harness import SkipConformance
+        raise SkipConformance("abstract-sequence proof script has no concrete reading")
+    from contracts.sockworld import SockWorld
+    from pyvc import aio
+    W = SockWorld(h)
+    it = h.it
+    sock = W.make_socket(queue=[], connected=False)
+    now = aio.now(it)
+    h.assume(_sym.mkbool(_purge_axiom(_sym.real_t(now))), "definition of purge (recursive, as a quantified axiom)")
+    old = _z3.Const(_sym.fresh_name("old_queue"), _SEQ)
+    q = SeqDeque(it, old)
+    sock.attrs["_message_queue"] = q
+    new = W.entry("new")
+    n0 = _z3.Length(old)
+
+    def hook(it2, node, env):
+        if not isinstance(node, _ast.For):
+            raise _Unsupported("the purge loop is no longer a `for` loop: this loop contract does not apply")
+        itn = node.iter
+        ok_shape = (isinstance(itn, _ast.Call) and isinstance(itn.func, _ast.Name) and itn.func.id == "reversed" and len(itn.args) == 1
+                    and isinstance(itn.args[0], _ast.Call) and isinstance(itn.args[0].func, _ast.Name) and itn.args[0].func.id == "range"
+                    and len(itn.args[0].args) == 1)
+        if not ok_shape:
+            raise _Unsupported("purge loop header is not `for i in reversed(range(<bound>))`")
+        bound = it2.eval(itn.args[0].args[0], env)
+        h.oblige("purge-loop/the loop visits every index of the queue (bound == len(queue))", _sym.eq(bound, _sym.mkint(n0)), kind="loop-init")
+        cur = sock.attrs["_message_queue"].t
+        h.oblige("purge-loop/init: queue == old ++ purge(<empty suffix>)",
+                 _seq_eq(cur, _z3.Concat(_z3.SubSeq(old, 0, n0), _PURGE(_z3.SubSeq(old, n0, 0)))), kind="loop-init")
+        which = it2.path.choose(2, "purge loop")
+        if which == 0:
+            i = _z3.Int(_sym.fresh_name("i"))
+            it2.path.assume(_sym.mkbool(_z3.And(i >= 0, i < n0)))
+            it2.path.inputs["purge-loop:i"] = _SInt(i)
+            q.t = _z3.Concat(_z3.SubSeq(old, 0, i + 1), _PURGE(_z3.SubSeq(old, i + 1, n0 - i - 1)))
+            it2.assign(node.target, _SInt(i), env)
+            it2.exec_block(node.body, env)
+            h.oblige("purge-loop/preserve: after visiting index i the queue is old[0..i-1] ++ purge(old[i..])",
+                     _seq_eq(q.t, _z3.Concat(_z3.SubSeq(old, 0, i), _PURGE(_z3.SubSeq(old, i, n0 - i)))), kind="loop-preserve")
+            raise _PathEnd()
+        q.t = _PURGE(old)
+        from pyvc.loops import havoc_assigned
+        havoc_assigned(it2, node, env)  # every local the loop assigns is arbitrary afterwards
+        return None
+
+    it.loop_hooks[(ENQ, 0)] = hook
+    r = h.method(sock, "_enqueue_message", new)
+    kept = _PURGE(old)
+    new_id = q.id_of(it, new)
+    full = _sym.mkbool(_z3.Length(kept) >= 10)
+    if r.raised("QueueOverflowError"):
+        h.oblige("overflow only when ten unexpired entries are already held", full)
+        h.oblige("on overflow the held entries are exactly the unexpired old ones, in order", _seq_eq(q.t, kept))
+        h.cover("overflow path")
+    else:
+        h.oblige("accepted without error", r.ok)
+        h.oblige("accepted only when fewer than ten unexpired entries are held", _sym.Not(full))
+        h.oblige("queue = unexpired old entries in order, then the new entry", _seq_eq(q.t, _z3.Concat(kept, _z3.Unit(new_id))))
+        h.cover("accept path")
